@@ -137,8 +137,9 @@ func deepCopyMap(m map[string]any) map[string]any {
 	return o
 }
 
-// overrideKey is the format used to instantiate {fmt}.
-const overrideKey = "deb"
+// overrideKey is the format used to instantiate {fmt} (set per case by checks that sweep the formats;
+// a worker handles one case at a time).
+var overrideKey = "deb"
 
 func setDeep(m map[string]any, path []string, value any) {
 	key := path[0]
